@@ -53,7 +53,7 @@ claim("C20", "field-flow and variant-flow identity on MIR pairs (new / embed) wi
       "identity, unsupported (panicking) variants are an enumerated set and no catch-all arm swallows a source variant; cached lowerings "
       "are consulted only for crates with a configured cache file; the interning tables of the saving contexts store payloads computed from the key alone; "
       "the validity test of a crate cache compares every field of the recorded metadata (compiler version, settings, global flags) with the freshly "
-      "computed one, field against field, and refuses on a mismatch." + DECIDES +
+      "computed one, field against field, and refuses on a mismatch; no routine of the cache modules re-orders or de-duplicates a sequence or collects it into a container with an order of its own." + DECIDES +
       " Consistency of the id lookup tables across sections and whether the recorded metadata is *sufficient* (covers every input of the cached phases) are not decided.",
       "trusted: rustc MIR, fact dumper, name-based pairing of mirror and source fields; tables/c20_exceptions.tsv lists reasoned exceptions; known_findings.jsonl lists one genuine defect",
       "DESIGN.md section 4, C20")
@@ -69,7 +69,7 @@ claim("C14", "call-graph reachability (class-hierarchy resolution) + panic-site 
       "establishes by rejecting the other values before the call; a worklist loop marks (visited set / status slot) what it expands before pushing; "
       "the call sites of validation routines on the path do not disappear. Termination of recursion, of loops inside external crates and memory bounds beyond (a) are not decided. Two genuine panics found by (b) in the "
       "ap-change computation, a non-terminating worklist in the circuit type specialisation "
-      "and five unchecked offset / ap-change computations in sierra-to-casm were repaired in /repo (fix: commits 938a2fe, aa8782c, 17c99da, e0b62af, 327cf5e, 9110ec8, 0885174, 7fd95f8, 93583bd, be5a9dc); "
+      "and five unchecked offset / ap-change computations in sierra-to-casm were repaired in /repo (fix: commits 938a2fe, aa8782c, 17c99da, e0b62af, 327cf5e, 9110ec8, 0885174, 7fd95f8, 93583bd, be5a9dc, bd4cefe); "
       "the i64 overflow of the legacy equation solver and the i32 overflow of the gas cost arithmetic are recorded known findings.",
       "trusted: rustc MIR, fact dumper; external crates are leaves modelled by the list of panicking entry points in rules/c14.py; class-U inventory rows carry no safety claim",
       "DESIGN.md section 4, C14")
